@@ -594,6 +594,58 @@ func main() {
 			return true
 		})
 	}
+	// loop shape: the guard must be reached for EVERY completed graph — the loop ranges over the whole parameter and no
+	// statement before the guard leaves the iteration successfully (continue / break / return nil)
+	completedRangeOver := "not-found"
+	var completedEarlyExits []string
+	if vf := p.funcs["validateCompletedDumpSources"]; vf != nil {
+		param := ""
+		for _, f := range vf.Type.Params.List {
+			if strings.HasPrefix(exprString(f.Type), "[]") && len(f.Names) == 1 {
+				param = f.Names[0].Name
+			}
+		}
+		for _, st := range vf.Body.List {
+			rs, ok := st.(*ast.RangeStmt)
+			if !ok {
+				// anything but the loop and the final return is reported
+				if r, isRet := st.(*ast.ReturnStmt); !(isRet && len(r.Results) == 1 && exprString(r.Results[0]) == "nil") {
+					completedEarlyExits = append(completedEarlyExits, "top-level:"+fmt.Sprintf("%T", st))
+				}
+				continue
+			}
+			completedRangeOver = exprString(rs.X)
+			if completedRangeOver == param {
+				completedRangeOver = "param:" + param
+			}
+			for _, bs := range rs.Body.List {
+				if ifs, ok := bs.(*ast.IfStmt); ok && exprString2(ifs.Cond) == completedGuard {
+					break // reached the guard
+				}
+				leaves := false
+				ast.Inspect(bs, func(n ast.Node) bool {
+					switch x := n.(type) {
+					case *ast.BranchStmt:
+						if x.Tok == token.CONTINUE || x.Tok == token.BREAK || x.Tok == token.GOTO {
+							leaves = true
+						}
+					case *ast.ReturnStmt:
+						if len(x.Results) == 1 && exprString(x.Results[0]) == "nil" {
+							leaves = true
+						}
+					}
+					return true
+				})
+				if leaves {
+					cond := fmt.Sprintf("%T", bs)
+					if ifs, ok := bs.(*ast.IfStmt); ok {
+						cond = exprString2(ifs.Cond)
+					}
+					completedEarlyExits = append(completedEarlyExits, cond)
+				}
+			}
+		}
+	}
 	// dumpGraph: `if checkpoint.HasSnapshot { if checkpoint.Snapshot != currentSnapshot { return error } }` (struct comparison: both counts)
 	currentGuard := "not-found"
 	if dg := p.funcs["dumpGraph"]; dg != nil {
@@ -721,6 +773,7 @@ func main() {
 	fmt.Fprintf(&out, "/-- resume compares the two identity values as a whole (reflect.DeepEqual) -/\ndef comparesWholeIdentity : Bool := %s\n", leanBool(comparesWhole))
 	fmt.Fprintf(&out, "/-- `Dump` computes the expected identity from the options of the current call and hands it to the resume check -/\ndef identityFromCurrentOptions : Bool := %s\ndef resumeUsesThatIdentity : Bool := %s\n", leanBool(identityFromCurrentOptions), leanBool(resumeUsesThatIdentity))
 	fmt.Fprintf(&out, "\n/-- the refusal guard of `validateCompletedDumpSources` (operands, comparison operators and connective as written) -/\ndef completedSourceGuard : String := %s\n", leanStr(completedGuard))
+	fmt.Fprintf(&out, "/-- loop shape of `validateCompletedDumpSources`: what the loop ranges over and the conditions under which an iteration is left before the guard (continue / break / return nil) -/\ndef completedGuardRangeOver : String := %s\ndef completedGuardEarlyExits : List String := %s\n", leanStr(completedRangeOver), leanList(completedEarlyExits))
 	fmt.Fprintf(&out, "/-- the refusal guard on the in-progress graph's snapshot in `dumpGraph` (a comparison of the whole snapshot struct) and the struct's fields -/\ndef currentSourceGuard : String := %s\ndef snapshotFields : List String := %s\n", leanStr(currentGuard), leanList(snapshotFields))
 	fmt.Fprintf(&out, "\n/-- conditions under which the resume-time walk of the output directory skips an entry unchecked -/\ndef walkSkips : List String := %s\n", leanList(walkSkips))
 	fmt.Fprintf(&out, "\n/-- the scrubber's plan cache (`planKey`): the expression(s) indexing the cache, where the normalised key comes from, and the plan fields computed from the RAW key -/\ndef planCacheKey : String := %s\ndef planNormalizedFrom : String := %s\ndef planFieldsFromRawKey : List String := %s\n", leanStr(planCacheKey), leanStr(planNormalizedFrom), leanList(planFieldsFromRaw))
